@@ -2,7 +2,7 @@ import Xrl.Lemmas.Meets
 import Xrl.Props.C01
 import Xrl.Props.C10
 import Xrl.Spec.Auger
-import Xrl.Gen.Fns
+import Xrl.Gen.F_pr_data
 /-!
 # C11 — Auger yields and rates are the documented derivation of the raw tables
 
